@@ -185,9 +185,10 @@ func (g *genState) restrict(t *tableSpec) {
 						for x := s.GX; x < s.GX+s.CS; x++ {
 							if len(refs[x]) == 0 {
 								free = true
-							} else if slack[x] {
-								// F6b: a spanned column that carries a width holds only
-								// contents whose min-content and max-content widths coincide.
+							} else if slack[x] || hasPx(refs[x]) {
+								// F6b: a spanned column carries no px width, and a percentage
+								// only with contents whose min-content and max-content widths
+								// coincide (a px width alone makes them differ).
 								for _, p := range refs[x] {
 									*p = ""
 								}
@@ -400,4 +401,13 @@ func hasSlack(c *cellSpec) bool {
 		return false
 	}
 	return len(strings.Fields(c.Text)) > 1 || len(strings.Fields(c.Text2)) > 1
+}
+
+func hasPx(refs []*string) bool {
+	for _, p := range refs {
+		if strings.HasSuffix(*p, "px") {
+			return true
+		}
+	}
+	return false
 }
